@@ -1,6 +1,7 @@
 //! Scenario crate `scn-oracle` (chain-level simulation on the chainsim runtime): oracle, custom price feeds,
 //! Chainlink report decoding, price decimals, price adjustment, market openness (C24–C29).
 
+pub mod accept;
 pub mod common;
 pub mod decimals;
 pub mod decode;
@@ -8,7 +9,7 @@ pub mod feed;
 
 use simcore::{CheckSpec, Part};
 
-pub const PROPERTIES: &[&str] = &["C25", "C28", "C26"];
+pub const PROPERTIES: &[&str] = &["C25", "C28", "C26", "C24", "C29"];
 
 pub fn registry(property: &str) -> Option<CheckSpec> {
     match property {
@@ -38,6 +39,26 @@ pub fn registry(property: &str) -> Option<CheckSpec> {
             assumptions: vec![
                 "on chain the provider price is an 18-decimals Chainlink report value (< 2^127); other provider decimals (0..40) and the full u128 range are only driven through direct calls of Decimal::try_from_price".into(),
                 "the precision step of a token is 10^(20 - token decimals - precision) in unit-price terms (price per base unit scaled by 10^20)".into(),
+            ],
+        }),
+        "C24" => Some(CheckSpec {
+            property: "C24",
+            level: "exploration",
+            parts: vec![Part::new(accept::OracleUse, 12_000, 240_000)],
+            assumptions: vec![
+                "only custom Chainlink Data Streams feeds are simulated (Pyth / Switchboard accounts are not), so the reference price is always the report's own mid price".into(),
+                "the configured deviation is floor(reference unit price x factor / 10^20) rounded up to one precision step of the token; when that floor is 0 the program documents that the check is skipped and no demand is made".into(),
+                "'expected feed' means the configured feed id: a feed account of another PRICE_KEEPER carrying the configured feed id is a legitimate source".into(),
+                "an executing instruction whose transaction fails is rolled back by the runtime, so 'cleared after use' is demanded after completed and soft-failed executions and 'unchanged' after rolled-back ones".into(),
+            ],
+        }),
+        "C29" => Some(CheckSpec {
+            property: "C29",
+            level: "exploration",
+            parts: vec![Part::new(accept::OracleUse, 12_000, 240_000)],
+            assumptions: vec![
+                "only the explicit-reference path (the report's own mid price) is reachable with custom feeds; the implicit mid-of-min/max reference of Pyth / Switchboard feeds is not simulated".into(),
+                "adjusted prices are observed through set_prices_from_price_feed (the Oracle account keeps them); inside executing instructions they are not observable".into(),
             ],
         }),
         _ => None,
